@@ -99,10 +99,10 @@ def gen_tree(rng, depth, counter, horizon, under_best=False, top=False):
     nid = counter[0]
     counter[0] += 1
     if depth <= 0:
-        kind = rng.weighted([("leaf", 8), ("ckpt", 2), ("maxep", 0.3 if under_best else 1)])
+        kind = rng.weighted([("leaf", 8), ("ckpt", 2), ("maxep", 1)])
     else:
         kind = rng.weighted([("leaf", 3 if not top else 1.5), ("list", 4 if not top else 6), ("everyN", 3), ("eval", 3),
-                             ("ckpt", 1 if not top else 0.5), ("maxep", 0.15 if under_best else 0.6 if not top else 0.3)])
+                             ("ckpt", 1 if not top else 0.5), ("maxep", 0.6 if not top else 0.3)])
     if kind == "leaf":
         stops = []
         if rng.chance(0.3):
@@ -198,8 +198,6 @@ def lean_tree(nd):
 
 
 def shrink_candidates(case):
-    if case.get("_noshrink"):
-        return
     if len(case["learns"]) > 1:
         for i in range(len(case["learns"])):
             c = copy.deepcopy(case)
@@ -504,10 +502,6 @@ def run_impl(ctx, case):
 # ------------------------------------------------------------------------------------------------
 # oracle: the property, coded on the recorded call tree and the environments' own logs
 # ------------------------------------------------------------------------------------------------
-KNOWN_CAUSE = "eval_best_not_forwarded"
-MAX_KNOWN_LISTED = 2  # per chunk: the report keeps at most 40 violations, known ones must not crowd out new ones
-
-
 class Viol:
     def __init__(self, ctx, case):
         self.ctx, self.case, self.seen = ctx, case, set()
@@ -517,15 +511,7 @@ class Viol:
         if key in self.seen:
             return
         self.seen.add(key)
-        case = self.case
-        if sig.get("cause") == KNOWN_CAUSE:
-            self.ctx.report.count("oracle_hits_with_cause_" + KNOWN_CAUSE)
-            n = getattr(self.ctx, "_c13_known_listed", 0)
-            if n >= MAX_KNOWN_LISTED:
-                return
-            self.ctx._c13_known_listed = n + 1
-            case = dict(case, _noshrink=True)  # a recorded finding: no need to minimise it on every run
-        self.ctx.report.violation(what, case, sig, detail)
+        self.ctx.report.violation(what, self.case, sig, detail)
 
 
 def true_dones(out, g):
@@ -548,10 +534,9 @@ def oracle(ctx, case, out):
     best = {i: -math.inf for i in idx}
     neps = {i: 0 for i in idx}
     fresh_root = case["pylist"]
-    BEST = KNOWN_CAUSE
-
     def cause(nid):
-        return {"cause": BEST} if idx[nid][2] else {}
+        # informative only: the node sits below a callback_on_new_best edge (finding K-C13-b, fixed by 4379697)
+        return {"under_new_best": True} if idx[nid][2] else {}
 
     def walk(E):
         nid, ep, ch = E["id"], E["ep"], E["ch"]
@@ -594,7 +579,10 @@ def oracle(ctx, case, out):
             b = nd["best"]["id"] if nd["best"] is not None else None
             a = nd["after"]["id"] if nd["after"] is not None else None
             if ep in ("on_training_start", "update_locals"):
-                exp = [(x, ep) for x in (b, a) if x is not None]
+                # both children receive the event; which one first is not part of the property
+                exp = [(x, ep) for x in (a, b) if x is not None]
+                if sorted(got) == sorted(exp):
+                    exp = got
             elif ep == "on_step":
                 due = nd["freq"] > 0 and cnt[nid] % nd["freq"] == 0
                 means = E.get("eval_means", [])
@@ -649,7 +637,8 @@ def oracle(ctx, case, out):
                         "answer False) as documented")
             if t == "eval" and ep in ("on_training_start", "update_locals") and not extra and \
                     all(x[0] == (nd["best"] or {}).get("id") for x in missing):
-                sig["cause"] = BEST
+                sig["child"] = "on_new_best"
+                what = "EvalCallback does not forward training start / locals to its callback_on_new_best child"
             else:
                 sig.update(cause(nid))
             viol(what, sig, {"id": nid, "expected": exp, "got": got, "num_timesteps": E["mnum"], "n_calls": E["nc"]})
@@ -748,8 +737,6 @@ def oracle(ctx, case, out):
             if s["nt"] != s["mnum"]:
                 viol("num_timesteps a user callback reads inside _on_step() is not the model's counter at that step",
                      {"kind": "user_num_timesteps"}, s)
-            if idx[nid][2] and not s["has"]:
-                continue  # reported by the forwarding rule (callback_on_new_best never receives locals)
             if not s["has"]:
                 viol("a step event without step locals", {"kind": "locals_missing", **cause(nid)}, s)
                 continue
